@@ -21,6 +21,10 @@ Definition fabricated {A} : res A := Err EFabricated.
 Definition from_f64 (f : f64) (off : Z) : res (value * Z) :=
   if f_is_finite f then ret (VNum (Flt f)) off else fabricated.
 
+(** The models of serde_json's reader and printer have no error results; should
+    one ever arise it is reported as [Unmodelled] rather than as a JMESPath error. *)
+Definition no_err {A} (r : res A) : res A := match r with Err _ => Unmodelled | x => x end.
+
 Definition arg0 (args : list value) : res value := match args with a :: _ => Ok a | [] => Trap end.
 Definition arg1 (args : list value) : res value := match args with _ :: a :: _ => Ok a | _ => Trap end.
 
@@ -275,7 +279,7 @@ Definition call_builtin (ev : evaluator) (b : builtin) (sg : signature) (args : 
       let* a := arg0 args in
       match a with
       | VNum _ => ret a off
-      | VStr s => let* o := from_json s in
+      | VStr s => let* o := no_err (from_json s) in
                   match o with
                   | Some v => if is_number v then ret v off else ret VNull off
                   | None => ret VNull off
@@ -286,7 +290,7 @@ Definition call_builtin (ev : evaluator) (b : builtin) (sg : signature) (args : 
       let* a := arg0 args in
       match a with
       | VStr _ => ret a off
-      | _ => let* s := print_json a in ret (VStr s) off
+      | _ => let* s := no_err (print_json a) in ret (VStr s) off
       end
   | BType => let* a := arg0 args in ret (VStr (type_name (get_type a))) off
   end.
